@@ -4,13 +4,15 @@ package gtab
 
 import (
 	"seehuhn.de/go/sfnt/glyph"
+	"seehuhn.de/go/sfnt/opentype/classdef"
+	"seehuhn.de/go/sfnt/opentype/coverage"
 	"seehuhn.de/go/sfnt/opentype/gdef"
 )
 
 // Reference shaper: a direct, unoptimised transcription of the OpenType lookup rules
 // (OpenType spec, chapter "Common Table Formats" / GSUB / GPOS) for the lookup types it covers:
-// GSUB 1 (both formats), 2, 3, 4 and GPOS 1 (both formats), 2.1, and sequence context format 1 with
-// nested lookups of those types.  It shares no code with layout.go / gsub.go / gpos.go: every step
+// GSUB 1 (both formats), 2, 3, 4 and GPOS 1 (both formats), 2.1/2.2, sequence context formats 1, 2 and 3 and
+// chained sequence context formats 1, 2 and 3 with nested lookups of those types.  It shares no code with layout.go / gsub.go / gpos.go: every step
 // builds fresh slices.
 
 // refSkip reports whether the lookup flags tell the lookup to ignore glyph g.
@@ -195,6 +197,59 @@ func refAt(ll LookupList, gd *gdef.Table, lk *LookupTable, seq []glyph.Info, i i
 			}
 			refAdjust(&out[j], adj.Second)
 			return out, j + 1, true
+		case *SeqContext2:
+			if _, ok := s.Cov[g]; !ok || depth > 3 {
+				continue
+			}
+			cls := int(s.Input[g])
+			if cls >= len(s.Rules) {
+				continue
+			}
+			for _, rule := range s.Rules[cls] {
+				in := append([]uint16{uint16(cls)}, rule.Input...)
+				if pos, e, ok := refMatchChain(meta, gd, seq, i, nil, refClasses(s.Input, in), nil); ok {
+					return refNested(ll, gd, seq, pos, rule.Actions, depth), e, true
+				}
+			}
+		case *ChainedSeqContext2:
+			if _, ok := s.Cov[g]; !ok || depth > 3 {
+				continue
+			}
+			cls := int(s.Input[g])
+			if cls >= len(s.Rules) {
+				continue
+			}
+			for _, rule := range s.Rules[cls] {
+				in := append([]uint16{uint16(cls)}, rule.Input...)
+				if pos, e, ok := refMatchChain(meta, gd, seq, i, refClasses(s.Backtrack, rule.Backtrack), refClasses(s.Input, in), refClasses(s.Lookahead, rule.Lookahead)); ok {
+					return refNested(ll, gd, seq, pos, rule.Actions, depth), e, true
+				}
+			}
+		case *SeqContext3:
+			if depth > 3 || len(s.Input) == 0 {
+				continue
+			}
+			if pos, e, ok := refMatchChain(meta, gd, seq, i, nil, refSets(s.Input), nil); ok {
+				return refNested(ll, gd, seq, pos, s.Actions, depth), e, true
+			}
+		case *ChainedSeqContext3:
+			if depth > 3 || len(s.Input) == 0 {
+				continue
+			}
+			if pos, e, ok := refMatchChain(meta, gd, seq, i, refSets(s.Backtrack), refSets(s.Input), refSets(s.Lookahead)); ok {
+				return refNested(ll, gd, seq, pos, s.Actions, depth), e, true
+			}
+		case *ChainedSeqContext1:
+			idx, ok := s.Cov[g]
+			if !ok || depth > 3 {
+				continue
+			}
+			for _, rule := range s.Rules[idx] {
+				in := append([]glyph.ID{g}, rule.Input...)
+				if pos, e, ok := refMatchChain(meta, gd, seq, i, refGlyphs(rule.Backtrack), refGlyphs(in), refGlyphs(rule.Lookahead)); ok {
+					return refNested(ll, gd, seq, pos, rule.Actions, depth), e, true
+				}
+			}
 		case *SeqContext1:
 			idx, ok := s.Cov[g]
 			if !ok || depth > 3 {
@@ -285,4 +340,101 @@ func sameSeq(a, b []glyph.Info) bool {
 		}
 	}
 	return true
+}
+
+type refPred func(glyph.ID) bool
+
+func refSets(cc []coverage.Set) []refPred {
+	var out []refPred
+	for _, c := range cc {
+		c := c
+		out = append(out, func(g glyph.ID) bool { return c[g] })
+	}
+	return out
+}
+
+func refClasses(cd classdef.Table, cc []uint16) []refPred {
+	var out []refPred
+	for _, w := range cc {
+		w := w
+		out = append(out, func(g glyph.ID) bool { return cd[g] == w })
+	}
+	return out
+}
+
+func refGlyphs(gg []glyph.ID) []refPred {
+	var out []refPred
+	for _, w := range gg {
+		w := w
+		out = append(out, func(g glyph.ID) bool { return g == w })
+	}
+	return out
+}
+
+// refMatchChain matches a (chained) context at position i as the OpenType specification describes it: the
+// input sequence starts at seq[i]; further input glyphs, the backtrack sequence (closest glyph first, going
+// backwards from i) and the lookahead sequence (going forwards from the last input glyph, to the end of the
+// glyph sequence) are matched while glyphs ignored by the lookup flags are skipped.  Returns the positions
+// of the input glyphs and the position where scanning continues.
+func refMatchChain(meta *LookupMetaInfo, gd *gdef.Table, seq []glyph.Info, i int, back, input, look []refPred) ([]int, int, bool) {
+	if !input[0](seq[i].GID) {
+		return nil, 0, false
+	}
+	pos := []int{i}
+	j := i
+	for _, want := range input[1:] {
+		j++
+		for j < len(seq) && refSkip(meta, gd, seq[j].GID) {
+			j++
+		}
+		if j >= len(seq) || !want(seq[j].GID) {
+			return nil, 0, false
+		}
+		pos = append(pos, j)
+	}
+	b := i
+	for _, want := range back {
+		b--
+		for b >= 0 && refSkip(meta, gd, seq[b].GID) {
+			b--
+		}
+		if b < 0 || !want(seq[b].GID) {
+			return nil, 0, false
+		}
+	}
+	a := j
+	for _, want := range look {
+		a++
+		for a < len(seq) && refSkip(meta, gd, seq[a].GID) {
+			a++
+		}
+		if a >= len(seq) || !want(seq[a].GID) {
+			return nil, 0, false
+		}
+	}
+	e := j + 1
+	for e < len(seq) && refSkip(meta, gd, seq[e].GID) {
+		e++
+	}
+	return pos, e, true
+}
+
+// refNested applies the nested lookups of a matched rule, each at its recorded input position (nested lookups
+// that keep the sequence length only, so positions stay valid).
+func refNested(ll LookupList, gd *gdef.Table, seq []glyph.Info, pos []int, actions []SeqLookup, depth int) []glyph.Info {
+	out := refCopy(seq)
+	for _, act := range actions {
+		if int(act.SequenceIndex) >= len(pos) || int(act.LookupListIndex) >= len(ll) {
+			continue
+		}
+		p := pos[act.SequenceIndex]
+		nl := ll[act.LookupListIndex]
+		if refSkip(nl.Meta, gd, out[p].GID) {
+			continue
+		}
+		if o2, _, ok := refAt(ll, gd, nl, out, p, depth+1); ok {
+			out = o2
+		}
+	}
+	return out
 }
